@@ -775,6 +775,9 @@ funcexpr(struct func *f, struct expr *e)
 			t = arg->type;
 			funcinst(f, IARG, qbetype(t).base, argvals[i], t->value);
 		}
+		/* a variadic callee needs the marker even when no variadic arguments are passed */
+		if (functype->u.func.isvararg && i == functype->u.func.nparam)
+			funcinst(f, IVARARG, 0, NULL, NULL);
 		e = e->base;
 		if (e->kind == EXPRUNARY && e->op == TBAND) {
 			e = e->base;
@@ -1223,7 +1226,7 @@ emitinst(struct inst **instp, struct inst **instend)
 		for (first = 1; instp != instend; ++instp) {
 			inst = *instp;
 			if (inst->kind == IVARARG) {
-				fputs(", ...", stdout);
+				fputs(first ? "..." : ", ...", stdout);
 				continue;
 			}
 			if (inst->kind != IARG)
